@@ -82,6 +82,8 @@ def cases(group):
             for k in range(1, kmax + 1):
                 for spec in pcov.REGRESSORS:
                     yield dict(X=X, Y=Y, mixing=mixing, k=k, reg=spec, big=group["label"].startswith("big"))
+                    if group["label"].startswith("I") and spec in ("default", "linreg"):
+                        yield dict(X=X, Y=Y, mixing=mixing, k=k, reg=spec, big=False, int_dtype=True)
                     if group["label"].startswith("G") and mixing == 0.5:
                         # every route again on a USED estimator (fitted before on other data of the same shape)
                         yield dict(X=X, Y=Y, mixing=mixing, k=k, reg=spec, big=False, prefit=True)
@@ -113,7 +115,7 @@ def check(case):
     for space, solver in routes:
         if solver == "arpack" and k >= min(X.shape):
             continue
-        est, exc = pcov.fit_pcovr(X, Y, mixing, k, spec, space, solver, prefit=bool(case.get("prefit")))
+        est, exc = pcov.fit_pcovr(X, Y, mixing, k, spec, space, solver, prefit=bool(case.get("prefit")), int_dtype=bool(case.get("int_dtype")))
         r.transitions += 1
         tag = "%s/%s" % (space, solver)
         if exc is not None:
